@@ -91,4 +91,551 @@ Proof.
   apply args_ok_of; assumption.
 Qed.
 
+Lemma lab1_len L k q : lenN (lab1 L k q) = if mem_N q L then 1 else 0.
+Proof.
+  unfold lab1. destruct (index_of q L 0) eqn:E; [rewrite ((LL index_of_mem) _ _ _ _ E)|rewrite ((LL index_of_none_mem) _ _ _ E)]; reflexivity.
+Qed.
+Lemma labs_len L k ps : lenN (labs L k ps) = lenN (filter (fun q => mem_N q L) ps).
+Proof.
+  induction ps as [|q ps IH]; [reflexivity|]. unfold labs in *. cbn [flat_map filter]. rewrite lenN_app, lab1_len, IH.
+  destruct (mem_N q L); [rewrite lenN_cons|]; lia.
+Qed.
+Lemma labs_fn L k ps l : In l (labs L k ps) -> l_fn l = k.
+Proof.
+  unfold labs. intros H. apply in_flat_map in H. destruct H as [q [_ H]]. unfold lab1 in H.
+  destruct (index_of q L 0); [destruct H as [<-|[]]; reflexivity|destruct H].
+Qed.
+
+Lemma mk_patches_fn L k start ks : forall vs off p, In p (mk_patches L k start off ks vs) -> p_fn p = k.
+Proof.
+  induction ks as [|kk ks IH]; intros [|v vs] off p H; cbn [mk_patches] in H; try destruct H.
+  apply in_app_or in H. destruct H as [H|H]; [|eapply IH, H].
+  unfold patch1 in H. destruct (okind_eqb kk KI32); [destruct H as [<-|[]]; reflexivity|destruct H].
+Qed.
+Lemma all_patches_fn L k D p : In p (all_patches TL L k D) -> p_fn p = k.
+Proof. unfold all_patches. intros H. apply in_flat_map in H. destruct H as [pi [_ H]]. eapply mk_patches_fn, H. Qed.
+Lemma filter_none_fn (ps : list patch) k : (forall p, In p ps -> p_fn p = k) -> filter (fun p => negb (p_fn p =? k)) ps = [].
+Proof.
+  induction ps as [|p ps IH]; intros H; [reflexivity|]. cbn [filter]. rewrite (H p (or_introl eq_refl)), N.eqb_refl. cbn [negb].
+  apply IH. intros q Hq. apply H. right. exact Hq.
+Qed.
+
+Lemma run_body_end m c D st1 k LS0 :
+  decode_all (length c) c 0 = Some D -> bytes_ok c ->
+  code_targets TL c = true -> code_f64 TL good c = true -> code_boundaries TL c = true -> code_patches TL c = true ->
+  lenN c < 4294967296 ->
+  a_in_fn st1 = true -> a_cur st1 = k -> a_size st1 = 0 -> a_rcode st1 = [] -> a_patches st1 = [] -> a_labels st1 = LS0 ->
+  (forall l, In l LS0 -> l_fn l < k) ->
+  lenN LS0 + lenN (fn_labels c) <= max_labels ->
+  exists st_e, run st1 (printed_lines m (fn_labels c) D (lenN c) ++ [B ".end"]) = inl st_e /\
+    a_mod st_e = {| m_flags := m_flags (a_mod st1); m_entry := m_entry (a_mod st1); m_strings := m_strings (a_mod st1);
+                    m_funcs := set_fn_code (m_funcs (a_mod st1)) k (lenN (m_code (a_mod st1))) (lenN c);
+                    m_code := m_code (a_mod st1) ++ c |} /\
+    a_in_fn st_e = false /\ a_patches st_e = [] /\ (forall l, In l (a_labels st_e) -> l_fn l < k + 1) /\
+    lenN (a_labels st_e) <= lenN LS0 + lenN (fn_labels c).
+Proof.
+  intros Hd Hbok Ht Hf Hb Hp Hlen Hin Hcur Hsz Hrc Hpa Hla HLS Hmax.
+  set (L := fn_labels c) in *. set (e := lenN c) in *.
+  destruct ((LL decode_all_spec) _ _ _ _ Hbok Hd) as [Ecode [Hch _]]. rewrite N.add_0_l in Hch. fold e in Hch.
+  pose proof (instr_ok_of c D Hd Hbok Ht Hf) as Hok. fold L in Hok.
+  destruct (chain_positions TL D 0 e Hch) as [_ [_ Hnd]].
+  pose proof (filter_count_le L _ Hnd) as Hcnt.
+  pose proof (fn_labels_len c) as HL. fold L in HL.
+  assert (Hpat : lenN (a_patches st1) + total_i32 TL D <= max_patches).
+  { rewrite Hpa. unfold code_patches, on_code in Hp. rewrite Hd in Hp. apply N.leb_le in Hp. unfold total_i32. rewrite lenN_nil. lia. }
+  assert (Hinv : lab_inv L k st1 0).
+  { intros l Hl Hfn. rewrite Hla in Hl. specialize (HLS l Hl). lia. }
+  rewrite (LL run_app).
+  rewrite ((LL run_body) m L k HL D st1 0 e Hch Hin Hcur Hsz Hok Hinv).
+  2:{ rewrite Hla. lia. }
+  2:{ exact Hpat. }
+  destruct ((LL sim_fields) L D st1 0 e Hch Hsz Hok) as [S1 [S2 [S3 [S4 [S5 [S6 S7]]]]]].
+  set (sb := sim TL L st1 D) in *.
+  destruct ((LL maybe_label_fields) L sb e) as [F1 [F2 [F3 [F4 [F5 [F6 F7]]]]]].
+  set (st_b := maybe_label L sb e) in *.
+  cbn [AsmFn.run]. rewrite (LL process_end) by (rewrite F1, S1; exact Hin).
+  assert (Elab : a_labels st_b = LS0 ++ labs L k (map fst D ++ [e])).
+  { unfold st_b. rewrite ((LL maybe_label_labels_eq) L sb e S4), S7, S2, Hcur, Hla. unfold labs. rewrite flat_map_app. cbn [flat_map].
+    rewrite app_nil_r, <- app_assoc. reflexivity. }
+  assert (HLbnd : forall t, In t L -> In t (map fst D ++ [e])).
+  { intros t Ht'. unfold code_boundaries, on_code in Hb. rewrite Hd in Hb. fold L in Hb. rewrite forallb_forall in Hb.
+    apply mem_N_In_pure. apply Hb in Ht'. exact Ht'. }
+  assert (Hfind : forall t idx, index_of t L 0 = Some idx -> In t (map fst D ++ [e]) ->
+            exists l, find_label (a_labels st_b) (label_name idx) k = Some l /\ l_off l = t).
+  { intros t idx Ei Hin'. rewrite Elab. rewrite (LL find_label_skip) by (intros l Hl E; specialize (HLS l Hl); lia).
+    apply (LL find_label_labs); assumption. }
+  rewrite F4, S5, Hpa, F2, S2, Hcur, F6, S6, Hrc. cbn [app rev].
+  pose proof ((LL resolve_all) L k (a_labels st_b) (map fst D ++ [e]) HLbnd Hfind D 0 e [] Hch Hlen Hok eq_refl) as Hres.
+  cbn [app] in Hres. rewrite Hres. unfold code_of_D in *. rewrite <- Ecode.
+  eexists. split; [reflexivity|]. cbn [a_mod a_in_fn a_patches a_labels].
+  rewrite F5, S3, F3, S4. split; [reflexivity|]. split; [reflexivity|]. split; [|split].
+  - apply filter_none_fn. intros p Hp'. apply (all_patches_fn L k D p Hp').
+  - intros l Hl. rewrite Elab in Hl. apply in_app_or in Hl. destruct Hl as [Hl|Hl]; [specialize (HLS l Hl); lia|].
+    rewrite (labs_fn _ _ _ _ Hl). lia.
+  - rewrite Elab, lenN_app, labs_len. lia.
+Qed.
+
+(* ---------------------------------------------------------------- one function block *)
+Definition fn_name_of (m : module) (f : fent) : text :=
+  match nthN (m_strings m) (fn_name f) with Some s => cstr s | None => B "???" end.
+Definition body_lines (m : module) (c : list byte) : list text :=
+  match decode_all (length c) c 0 with Some D => printed_lines m (fn_labels c) D (lenN c) | None => [] end.
+Definition fn_block (m : module) (f : fent) : list text :=
+  function_line (fn_name_of m f) f :: body_lines m (code_of m f) ++ [B ".end"; []].
+
+Definition mkmod (fl en : N) (ss : list (list byte)) (fs : list fent) (c : list byte) : module :=
+  {| m_flags := fl; m_entry := en; m_strings := ss; m_funcs := fs; m_code := c |}.
+
+Lemma all_ident_no0 l : all_ident l = true -> ~ In 0 l.
+Proof.
+  intros H Hin. pose proof (all_ident_plain l H) as P. rewrite Forall_forall in P. specialize (P _ Hin). discriminate P.
+Qed.
+
+Lemma set_fn_code_last Fdone f0 off len :
+  set_fn_code (Fdone ++ [f0]) (lenN Fdone) off len =
+  Fdone ++ [{| fn_name := fn_name f0; fn_arity := fn_arity f0; fn_off := off; fn_len := len; fn_locals := fn_locals f0; fn_upv := fn_upv f0 |}].
+Proof.
+  unfold set_fn_code, lenN. rewrite Nat2N.id.
+  rewrite nth_error_app2 by lia. rewrite Nat.sub_diag. cbn [nth_error].
+  rewrite firstn_app, firstn_all, Nat.sub_diag. cbn [firstn]. rewrite app_nil_r.
+  rewrite skipn_all2 by (rewrite app_length; cbn [length]; lia). reflexivity.
+Qed.
+
+Lemma run_fn m st f fl en Fdone Cdone name :
+  a_mod st = mkmod fl en (m_strings m) Fdone Cdone -> a_in_fn st = false -> a_patches st = [] ->
+  (forall l, In l (a_labels st) -> l_fn l < lenN Fdone) ->
+  nthN (m_strings m) (fn_name f) = Some name -> fname_okb name = true -> distinct_strs (m_strings m) = true ->
+  fn_arity f < 65536 -> fn_locals f < 65536 -> fn_upv f < 65536 ->
+  wf_codeb TL good (code_of m f) = true -> bytes_ok (code_of m f) ->
+  lenN (code_of m f) = fn_len f -> fn_off f = lenN Cdone -> lenN (code_of m f) < 4294967296 ->
+  lenN (a_labels st) + lenN (fn_labels (code_of m f)) <= max_labels ->
+  exists st', run st (fn_block m f) = inl st' /\
+    a_mod st' = mkmod fl en (m_strings m) (Fdone ++ [f]) (Cdone ++ code_of m f) /\
+    a_in_fn st' = false /\ a_patches st' = [] /\ (forall l, In l (a_labels st') -> l_fn l < lenN Fdone + 1) /\
+    lenN (a_labels st') <= lenN (a_labels st) + lenN (fn_labels (code_of m f)).
+Proof.
+  intros Hmod Hin Hpa HLS Hname Hfn Hdist Ha Hl Hu Hwf Hbok Hlen Hoff Hlt Hmax.
+  unfold fname_okb in Hfn. rewrite !andb_true_iff in Hfn. destruct Hfn as [[Hid Hne] Hnl].
+  apply negb_true_iff, Nat.eqb_neq in Hne. apply N.ltb_lt in Hnl.
+  assert (Hne' : name <> []) by (intros ->; apply Hne; reflexivity).
+  unfold wf_codeb in Hwf. rewrite !andb_true_iff in Hwf. destruct Hwf as [[[[Hdec Ht] Hb] Hp] Hf].
+  unfold code_decodes in Hdec. destruct (decode_all (length (code_of m f)) (code_of m f) 0) as [D|] eqn:Hd; [|discriminate].
+  unfold fn_block, fn_name_of, body_lines. rewrite Hname, Hd, (cstr_id name (all_ident_no0 _ Hid)).
+  cbn [AsmFn.run].
+  assert (Hadd : add_string (a_mod st) name = (a_mod st, fn_name f)).
+  { unfold add_string. rewrite Hmod. cbn [m_strings mkmod]. rewrite (find_string_nth _ _ _ 0 Hdist Hname). rewrite N.add_0_l. reflexivity. }
+  rewrite ((LL process_function) st name f (fn_name f) Hin Hid Hne' Hnl Ha Hl Hu Hadd).
+  set (st1 := {| a_mod := _; a_labels := a_labels st |}).
+  change (printed_lines m (fn_labels (code_of m f)) D (lenN (code_of m f)) ++ [B ".end"; []])
+    with (printed_lines m (fn_labels (code_of m f)) D (lenN (code_of m f)) ++ [B ".end"] ++ [[]]).
+  rewrite app_assoc, (LL run_app).
+  destruct (run_body_end m (code_of m f) D st1 (lenN Fdone) (a_labels st) Hd Hbok Ht Hf Hb Hp Hlt) as [st_e [Hrun [Em [Ei [Ep [El En]]]]]];
+    try reflexivity; try assumption.
+  { unfold st1. cbn [a_cur]. rewrite Hmod. reflexivity. }
+  rewrite Hrun. cbn [AsmFn.run]. rewrite (LL process_blank).
+  exists st_e. split; [reflexivity|]. split; [|split; [exact Ei|split; [exact Ep|split; [exact El|exact En]]]].
+  rewrite Em. unfold st1. cbn [a_mod m_flags m_entry m_strings m_funcs m_code]. rewrite Hmod. cbn [mkmod m_flags m_entry m_strings m_funcs m_code].
+  unfold mkmod. rewrite set_fn_code_last. cbn [fn_name fn_arity fn_locals fn_upv]. rewrite Hlen, <- Hoff. destruct f; reflexivity.
+Qed.
+
+(* ---------------------------------------------------------------- all function blocks *)
+Lemma firstn_plus {A} (l : list A) : forall a b, firstn (a + b) l = firstn a l ++ firstn b (skipn a l).
+Proof.
+  induction l as [|x l IH]; intros a b; [rewrite !firstn_nil, skipn_nil, firstn_nil; reflexivity|].
+  destruct a as [|a]; [reflexivity|]. cbn [Nat.add firstn skipn app]. f_equal. apply IH.
+Qed.
+Lemma layout_le fs : forall off total, layout_okb fs off total = true -> off <= total.
+Proof.
+  induction fs as [|f fs IH]; intros off total H; cbn [layout_okb] in H.
+  - apply N.eqb_eq in H. lia.
+  - apply andb_true_iff in H. destruct H as [_ H]. apply IH in H. lia.
+Qed.
+Lemma slice_spec (C : list byte) off len : off + len <= lenN C ->
+  slice C off len = firstn (N.to_nat len) (skipn (N.to_nat off) C) /\ lenN (slice C off len) = len.
+Proof.
+  intros H. unfold slice. destruct (N.ltb_spec (lenN C) off); [lia|].
+  replace (N.min len (lenN C)) with len by lia. split; [reflexivity|].
+  unfold lenN in *. rewrite firstn_length, skipn_length. lia.
+Qed.
+
+Definition fent_good (m : module) (f : fent) : Prop :=
+  (exists name, nthN (m_strings m) (fn_name f) = Some name /\ fname_okb name = true) /\
+  fn_arity f < 65536 /\ fn_locals f < 65536 /\ fn_upv f < 65536 /\ wf_codeb TL good (code_of m f) = true.
+Definition label_sum (m : module) (fs : list fent) : N :=
+  fold_right (fun f a => lenN (fn_labels (code_of m f)) + a) 0 fs.
+
+Lemma run_fns m fl en : distinct_strs (m_strings m) = true -> bytes_ok (m_code m) -> lenN (m_code m) < 4294967296 ->
+  forall Ftodo Fdone off st,
+  a_mod st = mkmod fl en (m_strings m) Fdone (firstn (N.to_nat off) (m_code m)) -> off <= lenN (m_code m) ->
+  a_in_fn st = false -> a_patches st = [] -> (forall l, In l (a_labels st) -> l_fn l < lenN Fdone) ->
+  layout_okb Ftodo off (lenN (m_code m)) = true -> Forall (fent_good m) Ftodo ->
+  lenN (a_labels st) + label_sum m Ftodo <= max_labels ->
+  exists st', run st (flat_map (fn_block m) Ftodo) = inl st' /\
+              a_mod st' = mkmod fl en (m_strings m) (Fdone ++ Ftodo) (m_code m) /\ a_in_fn st' = false.
+Proof.
+  intros Hdist Hbok Hclen. induction Ftodo as [|f Ftodo IH]; intros Fdone off st Hmod Hoff Hin Hpa HLS Hlay Hgood Hsum.
+  - cbn [layout_okb] in Hlay. apply N.eqb_eq in Hlay. subst off. exists st. split; [reflexivity|]. split; [|exact Hin].
+    rewrite Hmod, app_nil_r. unfold lenN. rewrite Nat2N.id, firstn_all. reflexivity.
+  - cbn [layout_okb] in Hlay. apply andb_true_iff in Hlay. destruct Hlay as [Hfo Hlay]. apply N.eqb_eq in Hfo.
+    pose proof (layout_le _ _ _ Hlay) as Hle.
+    inversion Hgood as [|? ? [[name [Hname Hfn]] [Ha [Hl [Hu Hwf]]]] Hgood']; subst.
+    cbn [label_sum fold_right] in Hsum. fold (label_sum m Ftodo) in Hsum.
+    assert (Hc : code_of m f = firstn (N.to_nat (fn_len f)) (skipn (N.to_nat (fn_off f)) (m_code m)) /\ lenN (code_of m f) = fn_len f).
+    { unfold code_of. apply slice_spec. lia. }
+    destruct Hc as [Hc1 Hc2].
+    assert (Hcd : lenN (firstn (N.to_nat (fn_off f)) (m_code m)) = fn_off f).
+    { unfold lenN in *. rewrite firstn_length. lia. }
+    cbn [flat_map]. rewrite (LL run_app).
+    destruct (run_fn m st f fl en Fdone (firstn (N.to_nat (fn_off f)) (m_code m)) name Hmod Hin Hpa HLS Hname Hfn Hdist Ha Hl Hu Hwf)
+      as [st1 [Hrun [Em [Ei [Ep [El En]]]]]].
+    + rewrite Hc1. apply bytes_ok_firstn, bytes_ok_skipn, Hbok.
+    + exact Hc2.
+    + symmetry. exact Hcd.
+    + rewrite Hc2. lia.
+    + lia.
+    + rewrite Hrun.
+      destruct (IH (Fdone ++ [f]) (fn_off f + fn_len f) st1) as [st' [Hrun' [Em' Ei']]]; try assumption.
+      * rewrite Em. f_equal. rewrite Hc1, N2Nat.inj_add. symmetry. apply firstn_plus.
+      * rewrite lenN_app, lenN_cons, lenN_nil. intros l Hl'. specialize (El l Hl'). lia.
+      * lia.
+      * exists st'. split; [exact Hrun'|]. split; [|exact Ei']. rewrite Em', <- app_assoc. reflexivity.
+Qed.
+
+(* ---------------------------------------------------------------- the .string lines *)
+Lemma distinct_NoDup l : distinct_strs l = true -> NoDup l.
+Proof.
+  induction l as [|x l IH]; intros H; [constructor|]. cbn [distinct_strs] in H. apply andb_true_iff in H. destruct H as [Hx H].
+  constructor; [|apply IH, H]. intros Hin. apply negb_true_iff in Hx. rewrite <- not_true_iff_false in Hx. apply Hx.
+  apply existsb_exists. exists x. split; [exact Hin|apply bytes_eqb_refl].
+Qed.
+Lemma notin_existsb s l : ~ In s l -> existsb (bytes_eqb s) l = false.
+Proof.
+  intros H. destruct (existsb (bytes_eqb s) l) eqn:E; [|reflexivity]. exfalso. apply existsb_exists in E.
+  destruct E as [x [Hx Hb]]. apply bytes_eqb_eq in Hb. subst. exact (H Hx).
+Qed.
+
+Definition str_good (s : list byte) : Prop := ~ In 59 s /\ ~ In 35 s /\ lenN s < string_buf.
+
+Lemma run_strings : forall strs pre st, a_mod st = mkmod 0 0 pre [] [] -> NoDup (pre ++ strs) -> Forall str_good strs ->
+  exists st', run st (map string_line strs) = inl st' /\ a_mod st' = mkmod 0 0 (pre ++ strs) [] [] /\
+              a_in_fn st' = a_in_fn st /\ a_patches st' = a_patches st /\ a_labels st' = a_labels st.
+Proof.
+  induction strs as [|s strs IH]; intros pre st Hmod Hnd Hg.
+  - exists st. rewrite app_nil_r. repeat split; try reflexivity. exact Hmod.
+  - inversion Hg as [|? ? [H59 [H35 Hlen]] Hg']; subst. cbn [map AsmFn.run].
+    rewrite (LL string_line_prep) by assumption. rewrite (LL process_string) by exact Hlen.
+    assert (Hni : ~ In s pre).
+    { apply NoDup_remove_2 in Hnd. intros H. apply Hnd. apply in_or_app. left. exact H. }
+    assert (Hadd : fst (add_string (a_mod st) s) = mkmod 0 0 (pre ++ [s]) [] []).
+    { unfold add_string. rewrite Hmod. cbn [m_strings mkmod]. rewrite find_string_none by (apply notin_existsb, Hni). reflexivity. }
+    rewrite Hadd.
+    destruct (IH (pre ++ [s]) (set_mod st (mkmod 0 0 (pre ++ [s]) [] []))) as [st' [Hr [Em [E1 [E2 E3]]]]].
+    + reflexivity.
+    + rewrite <- app_assoc. exact Hnd.
+    + exact Hg'.
+    + exists st'. split; [exact Hr|]. rewrite <- app_assoc in Em. repeat split; assumption.
+Qed.
+
+(* ---------------------------------------------------------------- the text of a module, as lines *)
+Definition mid_lines (m : module) : list text :=
+  (match m_strings m with [] => [] | _ => [[]] end)
+  ++ (if N.testbit (m_flags m) 0 then [entry_line (m_entry m); []] else []).
+Definition module_lines (m : module) : list text :=
+  map string_line (m_strings m) ++ mid_lines m ++ flat_map (fn_block m) (m_funcs m).
+
+Lemma dis_strings_lines ss : Forall (fun s => ~ In 0 s) ss -> flat_map dis_string ss = join (map string_line ss).
+Proof.
+  induction ss as [|s ss IH]; intros H; [reflexivity|]. inversion H; subst. cbn [flat_map map]. rewrite join_cons, IH by assumption.
+  unfold dis_string, string_line. rewrite cstr_id by assumption. rewrite <- !app_assoc. reflexivity.
+Qed.
+
+Lemma body_text_lines m c : code_decodes TL c = true -> bytes_ok c -> disasm_function TL print_f64 m c = join (body_lines m c).
+Proof.
+  intros Hdec Hok. unfold code_decodes in Hdec. unfold body_lines.
+  destruct (decode_all (length c) c 0) as [D|] eqn:Hd; [|discriminate].
+  unfold disasm_function. cbv zeta. fold (fn_labels c).
+  rewrite ((LL dis_body_lines) m (fn_labels c) D (S (length c)) (length c) c 0 Hd Hok) by lia. rewrite N.add_0_l. reflexivity.
+Qed.
+
+Lemma dis_fn_lines m f : fn_off f + fn_len f <= lenN (m_code m) -> lenN (m_code m) < 4294967296 -> bytes_ok (m_code m) ->
+  code_decodes TL (code_of m f) = true -> dis_fn TL print_f64 m f = join (fn_block m f).
+Proof.
+  intros Hle Hlt Hbok Hdec. destruct (slice_spec (m_code m) _ _ Hle) as [Hc1 Hc2]. fold (code_of m f) in Hc1, Hc2.
+  assert (Hcb : bytes_ok (code_of m f)) by (rewrite Hc1; apply bytes_ok_firstn, bytes_ok_skipn, Hbok).
+  assert (Hfin : forall body, body = join (body_lines m (code_of m f)) ->
+            B ".function " ++ fn_name_of m f ++ 32 :: print_dec (fn_arity f) ++ 32 :: print_dec (fn_locals f) ++ 32 :: print_dec (fn_upv f)
+              ++ [10] ++ body ++ B ".end" ++ [10; 10] = join (fn_block m f)).
+  { intros body ->. unfold fn_block. rewrite join_cons, join_app. unfold function_line.
+    set (P := B ".function "). set (E := B ".end"). cbn [join flat_map].
+    repeat first [rewrite <- !app_assoc | progress cbn [app]]. reflexivity. }
+  unfold dis_fn. fold (code_of m f). fold (fn_name_of m f). apply Hfin.
+  destruct (N.ltb_spec 0 (fn_len f)) as [Hpos|Hz].
+  - unfold u32. rewrite N.mod_small by lia. destruct (N.leb_spec (fn_off f + fn_len f) (lenN (m_code m))); [|lia].
+    cbn [andb]. apply body_text_lines; assumption.
+  - cbn [andb]. assert (Hnil : code_of m f = []) by (destruct (code_of m f); [reflexivity|unfold lenN in Hc2; cbn [length] in Hc2; lia]).
+    rewrite Hnil. reflexivity.
+Qed.
+
+Lemma dis_fns_lines m fs : (forall f, In f fs -> fn_off f + fn_len f <= lenN (m_code m) /\ code_decodes TL (code_of m f) = true) ->
+  lenN (m_code m) < 4294967296 -> bytes_ok (m_code m) ->
+  flat_map (dis_fn TL print_f64 m) fs = join (flat_map (fn_block m) fs).
+Proof.
+  intros H Hlt Hbok. induction fs as [|f fs IH]; [reflexivity|]. cbn [flat_map]. rewrite join_app.
+  destruct (H f (or_introl eq_refl)) as [H1 H2]. rewrite (dis_fn_lines m f H1 Hlt Hbok H2), IH; [reflexivity|].
+  intros g Hg. apply H. right. exact Hg.
+Qed.
+
+Lemma disasm_module_lines m : Forall (fun s => ~ In 0 s) (m_strings m) ->
+  (forall f, In f (m_funcs m) -> fn_off f + fn_len f <= lenN (m_code m) /\ code_decodes TL (code_of m f) = true) ->
+  lenN (m_code m) < 4294967296 -> bytes_ok (m_code m) ->
+  disasm_module TL print_f64 m = join (module_lines m).
+Proof.
+  intros Hs Hf Hlt Hbok. unfold disasm_module, module_lines, mid_lines. rewrite !join_app, dis_strings_lines, dis_fns_lines by assumption.
+  rewrite <- !app_assoc. f_equal. f_equal; [destruct (m_strings m); reflexivity|]. f_equal.
+  destruct (N.testbit (m_flags m) 0); [|reflexivity]. unfold entry_line. rewrite join_cons. cbn [join flat_map app].
+  rewrite <- !app_assoc. reflexivity.
+Qed.
+
+(* ---------------------------------------------------------------- no line contains a newline or a NUL *)
+Definition clean (l : text) : Prop := ~ In 10 l /\ ~ In 0 l.
+Definition strs_clean (m : module) : Prop := forall s, In s (m_strings m) -> clean s.
+
+Lemma cstr_sub s c : In c (cstr s) -> In c s.
+Proof.
+  induction s as [|x s IH]; intros H; [exact H|]. cbn [cstr] in H. destruct (x =? 0); [destruct H|].
+  destruct H as [->|H]; [left; reflexivity|right; apply IH, H].
+Qed.
+Lemma plain_clean l : Forall (fun c => plain_char c = true) l -> clean l.
+Proof. intros F. rewrite Forall_forall in F. split; intros H; specialize (F _ H); discriminate F. Qed.
+Lemma clean_app a b : clean a -> clean b -> clean (a ++ b).
+Proof. intros [A1 A2] [B1 B2]. split; intros H; apply in_app_or in H; tauto. Qed.
+
+Lemma fmt_comment_clean m L pos o v : strs_clean m -> clean (fmt_operands print_f64 m L pos o 0 [KU32] [v]).
+Proof.
+  intros Hs. cbn [Asm.fmt_operands Asm.fmt_operand]. rewrite app_nil_r.
+  assert (Hd : clean (32 :: print_dec v)).
+  { change (32 :: print_dec v) with ([32] ++ print_dec v). apply clean_app; [split; intros [H|[]]; discriminate|apply plain_clean, print_dec_plain]. }
+  assert (Hc : forall s, In s (m_strings m) -> clean (cstr s)).
+  { intros s Hin. destruct (Hs s Hin) as [H1 H2]. split; intros H; apply cstr_sub in H; tauto. }
+  destruct ((o =? op_push_str) && Nat.eqb 0 0).
+  - destruct (nthN (m_strings m) v) as [s|] eqn:E; [|exact Hd]. apply clean_app; [exact Hd|].
+    apply clean_app; [split; intros H; repeat (destruct H as [H|H]; [discriminate|]); destruct H|].
+    apply clean_app; [apply Hc; eapply nthN_In, E|split; intros [H|[]]; discriminate].
+  - destruct (((o =? op_call) || (o =? op_call_extern)) && Nat.eqb 0 0); [|exact Hd].
+    destruct (nthN (m_funcs m) v) as [f|]; [|exact Hd]. destruct (nthN (m_strings m) (fn_name f)) as [s|] eqn:E; [|exact Hd].
+    apply clean_app; [exact Hd|]. apply clean_app; [split; intros H; repeat (destruct H as [H|H]; [discriminate|]); destruct H|].
+    apply Hc. eapply nthN_In, E.
+Qed.
+
+Lemma printed_instr_clean m L p i : strs_clean m -> instr_ok TL good L (p, i) -> clean (printed_instr TL print_f64 m L p i).
+Proof.
+  intros Hs [ks [HT Haok]]. cbn [fst snd] in *. unfold printed_instr. rewrite ((LL kinds_of_T) _ _ HT).
+  destruct ((LL instr_printed) m L p i ks HT Haok) as [junk [Ej [Hj _]]]. rewrite Ej.
+  destruct ((LL instr_line_facts) L p i ks HT Haok) as [_ [_ [N10 N0]]].
+  apply clean_app; [split; assumption|].
+  destruct Hj as [->|[_ [v [_ [_ Ev]]]]]; [split; intros []|].
+  destruct (fmt_comment_clean m L p (op i) v Hs) as [C1 C2]. rewrite <- Ev in C1, C2.
+  split; intros H; [apply C1|apply C2]; apply in_or_app; right; exact H.
+Qed.
+
+Lemma lbl_lines_clean L q : Forall clean (lbl_lines L q).
+Proof.
+  unfold lbl_lines. destruct (index_of q L 0); [|constructor]. constructor; [|constructor].
+  apply clean_app; [apply plain_clean, all_ident_plain, label_name_ident|split; intros [H|[]]; discriminate].
+Qed.
+
+Lemma printed_lines_clean m L D e : strs_clean m -> Forall (instr_ok TL good L) D -> Forall clean (printed_lines m L D e).
+Proof.
+  intros Hs Hok. unfold AsmFn.printed_lines. apply Forall_app. split; [|apply lbl_lines_clean].
+  induction Hok as [|[p i] D Hpi Hok IH]; [constructor|]. cbn [flat_map fst snd]. apply Forall_app. split; [|exact IH].
+  apply Forall_app. split; [apply lbl_lines_clean|]. constructor; [|constructor]. apply printed_instr_clean; assumption.
+Qed.
+
+Lemma join_clean ls : Forall clean ls -> Forall (fun l => ~ In 10 l) ls /\ ~ In 0 (join ls).
+Proof.
+  intros F. split; [eapply Forall_impl; [|exact F]; intros l [H _]; exact H|].
+  induction F as [|l ls [_ H0] F IH]; [intros []|]. rewrite join_cons. intros H. apply in_app_or in H.
+  destruct H as [H|[H|H]]; [tauto|discriminate|tauto].
+Qed.
+
+(* ---------------------------------------------------------------- unpacking wf_moduleb *)
+Lemma layout_bounds fs : forall off total, layout_okb fs off total = true -> forall f, In f fs -> fn_off f + fn_len f <= total.
+Proof.
+  induction fs as [|g fs IH]; intros off total H f Hin; [destruct Hin|]. cbn [layout_okb] in H. apply andb_true_iff in H.
+  destruct H as [Ho H]. apply N.eqb_eq in Ho. destruct Hin as [->|Hin]; [pose proof (layout_le _ _ _ H); lia|eapply IH; eassumption].
+Qed.
+
+Record wf_facts (m : module) : Prop := {
+  wf_clean : strs_clean m;
+  wf_sgood : Forall str_good (m_strings m);
+  wf_nodup : distinct_strs (m_strings m) = true;
+  wf_fgood : Forall (fent_good m) (m_funcs m);
+  wf_lay : layout_okb (m_funcs m) 0 (lenN (m_code m)) = true;
+  wf_clen : lenN (m_code m) < 4294967296;
+  wf_cbytes : bytes_ok (m_code m);
+  wf_lsum : label_sum m (m_funcs m) <= max_labels;
+  wf_ent : m_entry m < 4294967296 }.
+
+Lemma wf_unpack m : wf_moduleb TL good m = true -> wf_facts m.
+Proof.
+  unfold wf_moduleb, wf_conjuncts. cbn [forallb]. rewrite !andb_true_iff.
+  intros [Hnul [Hnl [Hcm [Hlen [_ [Hdist [Hff [Hfn [Hlay [Hcb [Hdec [Htg [Hbd [Hpt [Hf64 [Hlt [Hent _]]]]]]]]]]]]]]]]].
+  unfold wf_str_nul, wf_str_nl, wf_str_comment, wf_str_len, all_strings in *. rewrite forallb_forall in Hnul, Hnl, Hcm, Hlen.
+  unfold wf_layout in Hlay. apply andb_true_iff in Hlay. destruct Hlay as [Hlay Hcl]. apply N.ltb_lt in Hcl.
+  constructor.
+  - intros s Hs. split; [apply (no_byte_notin _ _ _ (Hnl s Hs)); reflexivity|apply (no_byte_notin _ _ _ (Hnul s Hs)); reflexivity].
+  - apply Forall_forall. intros s Hs. split; [|split].
+    + apply (no_byte_notin _ _ _ (Hcm s Hs)); reflexivity.
+    + apply (no_byte_notin _ _ _ (Hcm s Hs)); reflexivity.
+    + apply N.ltb_lt. apply Hlen, Hs.
+  - exact Hdist.
+  - apply Forall_forall. intros f Hf. unfold wf_fn_fields, wf_fn_names, wf_code_decodes, wf_code_targets, wf_code_boundaries, wf_code_patches,
+      wf_code_f64, all_codes in *. rewrite forallb_forall in Hff, Hfn, Hdec, Htg, Hbd, Hpt, Hf64.
+    specialize (Hff f Hf). specialize (Hfn f Hf). rewrite !andb_true_iff, !N.ltb_lt in Hff. destruct Hff as [[Ha Hl] Hu].
+    unfold fent_good. split; [|split; [exact Ha|split; [exact Hl|split; [exact Hu|]]]].
+    + destruct (nthN (m_strings m) (fn_name f)) as [nm|]; [|discriminate]. exists nm. split; [reflexivity|exact Hfn].
+    + unfold wf_codeb. rewrite (Hdec f Hf), (Htg f Hf), (Hbd f Hf), (Hpt f Hf), (Hf64 f Hf). reflexivity.
+  - exact Hlay.
+  - exact Hcl.
+  - unfold wf_code_bytes in Hcb. apply bytes_okb_spec. exact Hcb.
+  - unfold wf_label_total in Hlt. apply N.leb_le in Hlt. exact Hlt.
+  - unfold wf_entry in Hent. apply N.ltb_lt. exact Hent.
+Qed.
+
+Lemma fn_block_clean m f : strs_clean m -> fent_good m f -> bytes_ok (code_of m f) -> Forall clean (fn_block m f).
+Proof.
+  intros Hs [[name [Hname Hfn]] [_ [_ [_ Hwf]]]] Hbok. unfold fn_block, fn_name_of. rewrite Hname.
+  unfold fname_okb in Hfn. rewrite !andb_true_iff in Hfn. destruct Hfn as [[Hid _] _].
+  rewrite (cstr_id name (all_ident_no0 _ Hid)).
+  constructor.
+  - destruct ((LL function_line_facts) name f Hid) as [_ [_ [H10 H0]]]. split; assumption.
+  - apply Forall_app. split.
+    + unfold body_lines. destruct (decode_all (length (code_of m f)) (code_of m f) 0) as [D|] eqn:Hd; [|constructor].
+      unfold wf_codeb in Hwf. rewrite !andb_true_iff in Hwf. destruct Hwf as [[[[_ Ht] _] _] Hf].
+      apply printed_lines_clean; [exact Hs|apply instr_ok_of; assumption].
+    + constructor; [split; intros H; repeat (destruct H as [H|H]; [discriminate|]); destruct H|].
+      constructor; [split; intros []|constructor].
+Qed.
+
+Lemma module_lines_clean m : wf_facts m -> Forall clean (module_lines m).
+Proof.
+  intros W. destruct W. unfold module_lines, mid_lines. apply Forall_app. split; [|apply Forall_app; split; [apply Forall_app; split|]].
+  - apply Forall_forall. intros l Hl. apply in_map_iff in Hl. destruct Hl as [s [<- Hs]]. destruct (wf_clean0 s Hs) as [H10 H0].
+    unfold string_line. apply clean_app; [split; intros H; repeat (destruct H as [H|H]; [discriminate|]); destruct H|].
+    apply clean_app; [split; apply escape_no; try discriminate; assumption|split; intros [H|[]]; discriminate].
+  - destruct (m_strings m); [constructor|]. constructor; [split; intros []|constructor].
+  - destruct (N.testbit (m_flags m) 0); [|constructor]. constructor; [|constructor; [split; intros []|constructor]].
+    destruct ((LL dec_line_facts) (B ".entry ") (m_entry m)) as [_ [_ [H10 H0]]]; [|split; assumption].
+    repeat (constructor; [first [left; reflexivity | right; reflexivity]|]). constructor.
+  - apply Forall_forall. intros l Hl. apply in_flat_map in Hl. destruct Hl as [f [Hf Hl]].
+    rewrite Forall_forall in wf_fgood0.
+    assert (Hb : bytes_ok (code_of m f)).
+    { pose proof (layout_bounds _ _ _ wf_lay0 f Hf) as Hle. destruct (slice_spec (m_code m) _ _ Hle) as [E _]. fold (code_of m f) in E.
+      rewrite E. apply bytes_ok_firstn, bytes_ok_skipn, wf_cbytes0. }
+    pose proof (fn_block_clean m f wf_clean0 (wf_fgood0 f Hf) Hb) as F. rewrite Forall_forall in F. apply F, Hl.
+Qed.
+
+(* ---------------------------------------------------------------- the theorem *)
+Theorem asm_disasm_module m : wf_moduleb TL good m = true ->
+  exists m', asm_assemble TL parse_f64 (disasm_module TL print_f64 m) = AOk m' /\
+             m_strings m' = m_strings m /\ m_funcs m' = m_funcs m /\ m_code m' = m_code m /\
+             (N.testbit (m_flags m) 0 = true -> m_entry m' = m_entry m /\ N.testbit (m_flags m') 0 = true).
+Proof.
+  intros Hwf. pose proof (wf_unpack m Hwf) as W. pose proof (module_lines_clean m W) as Hclean. destruct W.
+  destruct (join_clean _ Hclean) as [H10 H0].
+  assert (Hdl : disasm_module TL print_f64 m = join (module_lines m)).
+  { apply disasm_module_lines; try assumption.
+    - apply Forall_forall. intros s Hs. exact (proj2 (wf_clean0 s Hs)).
+    - intros f Hf. split; [eapply layout_bounds; eassumption|]. rewrite Forall_forall in wf_fgood0.
+      destruct (wf_fgood0 f Hf) as [_ [_ [_ [_ Hc]]]]. unfold wf_codeb in Hc. rewrite !andb_true_iff in Hc. tauto. }
+  unfold asm_assemble. rewrite Hdl, (cstr_id _ H0), (split_join_all _ H10).
+  (* the strings *)
+  destruct (run_strings (m_strings m) [] (init_state) eq_refl (distinct_NoDup _ wf_nodup0) wf_sgood0)
+    as [st_s [Hr_s [Em_s [Ei_s [Ep_s El_s]]]]]. cbn [app] in Em_s.
+  set (fl := if N.testbit (m_flags m) 0 then flag_has_main else 0).
+  set (en := if N.testbit (m_flags m) 0 then m_entry m else 0).
+  (* blank line and .entry *)
+  assert (Hmid : exists st_m, run st_s (mid_lines m) = inl st_m /\
+            a_mod st_m = mkmod fl en (m_strings m) [] [] /\ a_in_fn st_m = false /\ a_patches st_m = [] /\ a_labels st_m = []).
+  { unfold mid_lines. match goal with |- context [AsmFn.run TL parse_f64 st_s (?a ++ ?b)] => set (bl := a) end.
+    assert (Hb : run st_s bl = inl st_s).
+    { unfold bl. destruct (m_strings m); [reflexivity|]. cbn [AsmFn.run]. rewrite (LL process_blank). reflexivity. }
+    rewrite (LL run_app).
+    rewrite Hb. unfold fl, en. destruct (N.testbit (m_flags m) 0).
+    - cbn [AsmFn.run]. rewrite (LL process_entry) by exact wf_ent0. rewrite (LL process_blank).
+      eexists. split; [reflexivity|]. unfold set_mod. cbn [a_mod a_in_fn a_patches a_labels]. rewrite Em_s. cbn [mkmod m_flags m_strings m_funcs m_code].
+      repeat split; assumption.
+    - exists st_s. repeat split; assumption. }
+  destruct Hmid as [st_m [Hr_m [Em_m [Ei_m [Ep_m El_m]]]]].
+  (* the functions *)
+  assert (Hoff0 : 0 <= lenN (m_code m)) by lia.
+  assert (HLS0 : forall l, In l (a_labels st_m) -> l_fn l < lenN (@nil fent)) by (rewrite El_m; intros l []).
+  assert (Hsum0 : lenN (a_labels st_m) + label_sum m (m_funcs m) <= max_labels) by (rewrite El_m, lenN_nil; lia).
+  destruct (run_fns m fl en wf_nodup0 wf_cbytes0 wf_clen0 (m_funcs m) [] 0 st_m Em_m Hoff0 Ei_m Ep_m HLS0 wf_lay0 wf_fgood0 Hsum0)
+    as [st_f [Hr_f [Em_f Ei_f]]].
+  assert (Hrun : run init_state (module_lines m) = inl st_f).
+  { unfold module_lines. rewrite (LL run_app), Hr_s. rewrite (LL run_app), Hr_m. exact Hr_f. }
+  rewrite ((LL asm_lines_run) _ _ _ 0 Hrun), Ei_f. exists (a_mod st_f). split; [reflexivity|]. rewrite Em_f. cbn [app mkmod m_strings m_funcs m_code m_entry m_flags].
+  repeat split; unfold en, fl; rewrite H; reflexivity.
+Qed.
+
 End Proofs.
+
+(* ---------------------------------------------------------------- refusals *)
+Lemma asm_unknown_mnemonic TL parse_f64 st mn rest :
+  opcode_by_name TL mn = None -> asm_instruction TL parse_f64 st mn rest = inr asm_err_unknown_opcode.
+Proof. intros H. unfold asm_instruction. rewrite H. reflexivity. Qed.
+
+Lemma resolve_undefined ls cur : forall ps code,
+  (exists p, In p ps /\ p_fn p = cur /\ find_label ls (p_label p) cur = None) -> resolve ps ls cur code = None.
+Proof.
+  induction ps as [|q ps IH]; intros code [p [Hin [Hfn Hnone]]]; [destruct Hin|].
+  cbn [resolve]. destruct Hin as [->|Hin].
+  - rewrite Hfn, N.eqb_refl. cbn [negb]. rewrite Hnone. reflexivity.
+  - destruct (negb (p_fn q =? cur)); [apply IH; exists p; tauto|].
+    destruct (find_label ls (p_label q) cur); [apply IH; exists p; tauto|reflexivity].
+Qed.
+
+(* .end with a pending reference to a label that the function never defined is refused with ASM_ERR_UNDEFINED_LABEL *)
+Lemma asm_undefined_label TL parse_f64 st :
+  a_in_fn st = true ->
+  (exists p, In p (a_patches st) /\ p_fn p = a_cur st /\ find_label (a_labels st) (p_label p) (a_cur st) = None) ->
+  process_line TL parse_f64 st (B ".end") = inr asm_err_undefined_label.
+Proof.
+  intros Hin Hex.
+  unfold process_line. cbv zeta. change (skip_ws (B ".end")) with (B ".end"). change (line_end (B ".end")) with false. cbn iota.
+  change (starts 46 (B ".end")) with (Some (B "end")). cbn iota.
+  change (parse_identifier (B "end") directive_buf) with (Some (B "end", @nil byte)). cbn iota.
+  unfold do_directive. change (bytes_eqb (B "end") (B "string")) with false. change (bytes_eqb (B "end") (B "function")) with false.
+  change (bytes_eqb (B "end") (B "end")) with true. cbn iota. rewrite Hin. cbn [negb].
+  rewrite (resolve_undefined _ _ _ _ Hex). reflexivity.
+Qed.
+
+(* ---------------------------------------------------------------- the oracle hypothesis is satisfiable *)
+(* a toy float text (the bit pattern in decimal) meets f64_text_ok for every pattern below 2^63: the hypothesis of the
+   theorem is consistent.  It is NOT printf/strtod; those are tied by the correspondence run. *)
+Definition toy_print (v : N) : text := print_dec v.
+Definition toy_parse (l : text) : option (N * text) :=
+  match strtoll l with Some (z, r) => Some (Z.to_N z, r) | None => None end.
+Definition toy_good (v : N) : bool := v <? 9223372036854775808.
+Lemma toy_oracle_ok v : toy_good v = true -> f64_text_ok toy_print toy_parse v.
+Proof.
+  unfold toy_good. intros H. apply N.ltb_lt in H. unfold f64_text_ok, toy_print, toy_parse.
+  split; [apply print_dec_plain|]. split; [apply print_dec_nonempty|]. split.
+  - pose proof (print_dec_all_digits v) as F. destruct (print_dec v) as [|c r]; [discriminate|]. inversion F; subst.
+    cbn [hd]. pose proof (dec_char_bounds c H2). lia.
+  - intros rest Hs. rewrite strtoll_print_dec by assumption. rewrite N2Z.id. reflexivity.
+Qed.
+
+(* ---------------------------------------------------------------- boolean judge used by the refutation witnesses *)
+Fixpoint list_eqb {A} (eqb : A -> A -> bool) (a b : list A) : bool :=
+  match a, b with [], [] => true | x :: a', y :: b' => eqb x y && list_eqb eqb a' b' | _, _ => false end.
+Definition same_csf (a b : module) : bool :=
+  list_eqb bytes_eqb (m_strings a) (m_strings b)
+  && bytes_eqb (m_code a) (m_code b)
+  && list_eqb (fun f g => (fn_name f =? fn_name g) && (fn_arity f =? fn_arity g) && (fn_off f =? fn_off g) &&
+                               (fn_len f =? fn_len g) && (fn_locals f =? fn_locals g) && (fn_upv f =? fn_upv g)) (m_funcs a) (m_funcs b).
+Definition roundtrip_ok TL pf sf (m : module) : bool :=
+  match asm_assemble TL sf (disasm_module TL pf m) with AOk m' => same_csf m m' | AErr _ _ => false end.
+Definition roundtrip_err TL pf sf (m : module) : option (N * N) :=
+  match asm_assemble TL sf (disasm_module TL pf m) with AOk _ => None | AErr c l => Some (c, l) end.
